@@ -25,6 +25,9 @@ func init() {
 		{Name: "password-written-to-writer", Rule: "R18.1", Where: "(*Connect).dump", Edits: []Edit{{"connect.go", "\tp.UserProperties.dump(w)\n}\n\nfunc stars", "\tp.UserProperties.dump(w)\n\tw.Write(p.password)\n}\n\nfunc stars"}}},
 		{Name: "decoder-rewinds-to-declared-property-end", Rule: "R18.3", Where: "offset written outside get", Edits: []Edit{{"buffer.go", "\t\tdefault:\n\t\t\tb.err = fmt.Errorf(\"unknown property id 0x%02x\", id)\n\t\t}\n\t}\n", "\t\tdefault:\n\t\t\tb.err = fmt.Errorf(\"unknown property id 0x%02x\", id)\n\t\t}\n\t}\n\tb.i = end\n"}}},
 		{Name: "will-payload-copied-from-rest-of-frame", Rule: "R18.4", Where: "(*Connect).UnmarshalBinary#frame-access", Edits: []Edit{{"connect.go", "\t\tp.will.SetRetain(p.flags.Has(WillRetain))\n", "\t\tp.will.SetRetain(p.flags.Has(WillRetain))\n\t\tp.will.payload = append(rawdata(nil), buf.data[buf.i-len(p.willPayload):]...)\n"}}},
+		{Name: "setter-trims-line-ending", Rule: "R18.5", Where: "(*Connect).SetPassword", Edits: []Edit{
+			{"connect.go", "\tp.password = v\n", "\tp.password = bytes.TrimRight(v, \"\\r\\n\")\n"}}},
+		{Name: "setter-stores-a-copy", Silent: true, Edits: []Edit{{"connect.go", "\tp.password = v\n", "\tp.password = append([]byte(nil), v...)\n"}}},
 		{Name: "print-length-only", Silent: true, Edits: []Edit{{"connect.go", "fmt.Fprintf(w, \"Password: %q\\n\", stars(len(p.Password())))", "fmt.Fprintf(w, \"Password: %d bytes\\n\", len(p.Password()))"}}},
 	}})
 }
@@ -352,6 +355,8 @@ func checkC18(p *Prog, c *Check) {
 		c.Bad("anchor", "Connect.Username/Password", "-", "cannot identify the fields behind the exported credential accessors")
 		return
 	}
+	c.Rule("R18.5", "packets built through the API: whatever an mq function stores into a credential field is its own argument as given — the parameter, a conversion, a full copy — or a constant, so the stored length and emptiness are those of the value passed and do not depend on its bytes (the wire decoder reaches the fields only through the wire-type interface, whose length is the frame's length prefix)")
+	checkCredentialsStoredAsGiven(p, c, "R18.5", "Connect", []int{fu, fp})
 	ct := p.Pkg.Scope().Lookup("Connect").Type()
 	secret := map[string]bool{fmt.Sprintf("%s.%d", typeStr(ct), fu): true, fmt.Sprintf("%s.%d", typeStr(ct), fp): true}
 	var roots []*ssa.Function
@@ -530,4 +535,184 @@ func describeInstr(i ssa.Instruction) string {
 		s = s[:80] + "…"
 	}
 	return strings.ReplaceAll(s, "\n", " ")
+}
+
+// checkCredentialsStoredAsGiven (R18.5): whatever an mq function stores into a credential field is the function's
+// own argument as it is — the parameter, a conversion of it, a full copy — or a constant; the wire decoder reaches
+// the field only through the wire-type interface.  The stored length and emptiness are then those of the value
+// the caller passed, and nothing between the API and the field makes them depend on the bytes.
+func checkCredentialsStoredAsGiven(p *Prog, c *Check, rule string, tn string, fields []int) {
+	obj := p.Pkg.Scope().Lookup(tn)
+	if obj == nil {
+		c.Unk(rule, tn, "-", "type not found")
+		return
+	}
+	T := obj.Type()
+	isCred := func(fa *ssa.FieldAddr) bool {
+		pt, ok := fa.X.Type().Underlying().(*types.Pointer)
+		if !ok || !types.Identical(pt.Elem(), T) {
+			return false
+		}
+		for _, f := range fields {
+			if fa.Field == f {
+				return true
+			}
+		}
+		return false
+	}
+	var carrier func(fn *ssa.Function, v ssa.Value, depth int) (bool, string)
+	carrier = func(fn *ssa.Function, v ssa.Value, depth int) (bool, string) {
+		if depth > 8 {
+			return false, "value chain too deep"
+		}
+		switch x := v.(type) {
+		case *ssa.Parameter:
+			return true, ""
+		case *ssa.Const:
+			return true, ""
+		case *ssa.ChangeType:
+			return carrier(fn, x.X, depth+1)
+		case *ssa.Convert:
+			return carrier(fn, x.X, depth+1)
+		case *ssa.Slice:
+			if x.Low == nil && x.High == nil && x.Max == nil {
+				return carrier(fn, x.X, depth+1)
+			}
+			return false, "a part of the argument (" + describeVal(v) + ") is stored: which part may depend on its bytes"
+		case *ssa.Phi:
+			for _, e := range x.Edges {
+				if ok, why := carrier(fn, e, depth+1); !ok {
+					return false, why
+				}
+			}
+			return true, ""
+		case *ssa.MakeSlice:
+			// make(T, len(arg)) — filled by copy
+			if cl, ok := x.Len.(*ssa.Call); ok {
+				if bi, ok := cl.Call.Value.(*ssa.Builtin); ok && bi.Name() == "len" {
+					return carrier(fn, cl.Call.Args[0], depth+1)
+				}
+			}
+			return false, "a buffer whose length is not len(argument) is stored"
+		case *ssa.UnOp:
+			// a load of a cell that was just stored a carrier (spilled parameter)
+			if x.Op.String() == "*" {
+				if al, ok := x.X.(*ssa.Alloc); ok {
+					okAll, n := true, 0
+					why := ""
+					for _, r := range *al.Referrers() {
+						if st, ok := r.(*ssa.Store); ok && st.Addr == ssa.Value(al) {
+							n++
+							if ok2, w := carrier(fn, st.Val, depth+1); !ok2 {
+								okAll, why = false, w
+							}
+						}
+					}
+					if n > 0 && okAll {
+						return true, ""
+					}
+					if why != "" {
+						return false, why
+					}
+				}
+			}
+		case *ssa.Call:
+			if bi, ok := x.Call.Value.(*ssa.Builtin); ok && bi.Name() == "append" && len(x.Call.Args) == 2 {
+				base := x.Call.Args[0]
+				emptyBase := false
+				switch b := base.(type) {
+				case *ssa.Const:
+					emptyBase = b.Value == nil
+				case *ssa.Slice:
+					if h, ok := b.High.(*ssa.Const); ok && b.Low == nil {
+						if k, isC := constInt(h); isC && k == 0 {
+							emptyBase = true
+						}
+					}
+				case *ssa.ChangeType:
+					if cst, ok := b.X.(*ssa.Const); ok && cst.Value == nil {
+						emptyBase = true
+					}
+				case *ssa.Convert:
+					if cst, ok := b.X.(*ssa.Const); ok && cst.Value == nil {
+						emptyBase = true
+					}
+				}
+				if emptyBase {
+					return carrier(fn, x.Call.Args[1], depth+1)
+				}
+				return false, "the argument is appended to existing content"
+			}
+			name := "a call"
+			if sc := x.Call.StaticCallee(); sc != nil {
+				name = fullName(sc)
+			}
+			return false, "the result of " + name + " is stored, not the argument itself: its length may depend on the argument's bytes"
+		}
+		return false, "the stored value (" + describeVal(v) + ") is not the function's argument, a conversion or a full copy of it"
+	}
+	n := 0
+	var checkStoresThrough func(fn *ssa.Function, addr ssa.Value, depth int, via string)
+	checkStoresThrough = func(fn *ssa.Function, addr ssa.Value, depth int, via string) {
+		refs := addr.Referrers()
+		if refs == nil {
+			return
+		}
+		for _, r := range *refs {
+			switch x := r.(type) {
+			case *ssa.Store:
+				if x.Addr != addr {
+					continue
+				}
+				n++
+				cons := fmt.Sprintf("%s#credential-store%s", qname(fn), via)
+				if ok, why := carrier(fn, x.Val, 0); ok {
+					c.OK(rule, cons, posOf(p, x), "stores its argument as given (parameter, conversion or full copy) or a constant")
+				} else {
+					c.Bad(rule, cons, posOf(p, x), why+": two equally long credentials can end up with different stored lengths, which String and Dump print")
+				}
+			case *ssa.Call:
+				cc := x.Common()
+				sc := cc.StaticCallee()
+				if sc == nil || sc.Blocks == nil || depth > 2 {
+					if sc != nil && sc.Blocks == nil {
+						c.Unk(rule, fmt.Sprintf("%s#credential-address-escapes", qname(fn)), posOf(p, x), "the address of a credential field is handed to "+fullName(sc))
+					}
+					continue
+				}
+				for i, a := range cc.Args {
+					if a == addr && i < len(sc.Params) {
+						// the other arguments at this site must be carriers for the callee's parameters to count as such
+						for j, b := range cc.Args {
+							if j == i {
+								continue
+							}
+							if _, isSliceOrString := b.Type().Underlying().(*types.Slice); !isSliceOrString {
+								if bt, ok := b.Type().Underlying().(*types.Basic); !ok || bt.Info()&types.IsString == 0 {
+									continue
+								}
+							}
+							if ok, why := carrier(fn, b, 0); !ok {
+								n++
+								c.Bad(rule, fmt.Sprintf("%s#credential-store-arg", qname(fn)), posOf(p, x), why+": two equally long credentials can end up with different stored lengths, which String and Dump print")
+							}
+						}
+						checkStoresThrough(sc, sc.Params[i], depth+1, " (for "+qname(fn)+")")
+					}
+				}
+			}
+		}
+	}
+	for _, fn := range p.AllFuncs() {
+		for _, b := range fn.Blocks {
+			for _, ins := range b.Instrs {
+				if fa, ok := ins.(*ssa.FieldAddr); ok && isCred(fa) {
+					checkStoresThrough(fn, fa, 0, "")
+				}
+			}
+		}
+	}
+	// composite literals / whole-struct stores are outside: a Connect is built by NewConnect and the setters
+	c.Measured["credential_stores"] = n
+	c.Floor("stores into the credential fields", n, 2, "SetUsername and SetPassword")
 }
